@@ -1365,3 +1365,136 @@ def namespace_assembly(repo, run, rule):
         run.violation(rule, fi, 'removal of moved members', '; '.join(sorted(bad)))
     else:
         run.ok(rule, fi, 'namespaces installed with setattr; moved members removed from the class (own, non-dunder names only)')
+
+
+# tag -> (node class the constructor must build, data_arg_name, parse_scalars, dict_is_data) - written down from the documentation of the
+# tags; None for a field = not constrained.  A trailing ':' is the prefix (multi) form.
+TAG_SPEC = {
+    '!append': ('AppendNode', None, True, True), '!extend': ('ExtendNode', None, True, True), '!prev': ('PrevNode', None, False, True), '!clear': ('ClearNode', None, True, True),
+    '!include': ('IncludeNode', None, False, False), '!rec': ('RecurseNode', None, False, False), '!path': ('PathNode', None, True, True), '!path:': ('PathNode', None, True, False),
+    '!eval': ('EvalNode', None, False, True), '!fstr': (None, None, False, True), '!import': ('ImportNode', None, False, True),
+    '!call': ('CallNode', 'func', True, True), '!call:': ('CallNode', 'args', True, True), '!bind': ('BindNode', 'func', True, True), '!bind:': ('BindNode', 'args', True, True),
+    '!xref': ('XRefNode', None, False, True), '!ref': ('XRefNode', None, False, True), '!required': ('RequiredNode', None, True, True), '!null': ('ConfigScalar(type(None))', None, True, True),
+}
+
+
+def tag_spec(repo, run, rule, tags):
+    """the constructor registered for each of the given tags builds the node class the tag stands for, with the documented data
+    handling (which argument receives the YAML value, whether scalars are parsed, whether a mapping is the data or the arguments) - and
+    the registration helpers do register with PyYAML, for the awesomeyaml loader / dumper"""
+    from . import tagtable
+    table = tagtable.constructors(repo)
+    for tag in tags:
+        want_cls, want_arg, want_parse, want_dict = TAG_SPEC[tag]
+        e = table.get(tag)
+        if e is None or e.make is None:
+            run.violation(rule, ('awesomeyaml/yaml.py', 0, '<module>'), tag, 'tag %s is not registered with a constructor that builds a node' % tag)
+            continue
+        probs = []
+        nt = e.node_type or ''
+        if want_cls is not None and not (nt == want_cls or nt.endswith('.' + want_cls)):
+            probs.append('builds %s, expected %s' % (e.node_type or 'a plain (deduced) node', want_cls))
+        if want_cls is None and not e.node_type:
+            probs.append('builds a plain (deduced) node')
+        if e.multi != tag.endswith(':') and tag not in ('!rec:',):
+            probs.append('registered as %s constructor' % ('prefix' if e.multi else 'plain'))
+        if want_arg is not None and e.data_arg_name != want_arg:
+            probs.append('the YAML value is passed as %r, expected %r' % (e.data_arg_name, want_arg))
+        if e.parse_scalars is not want_parse:
+            probs.append('parse_scalars=%r, expected %r (%s)' % (e.parse_scalars, want_parse, 'the text must reach the node verbatim' if not want_parse else 'scalars keep their YAML type'))
+        if e.dict_is_data is not want_dict:
+            probs.append('dict_is_data=%r, expected %r' % (e.dict_is_data, want_dict))
+        if probs:
+            run.violation(rule, e.fi, '%s -> %s' % (tag, unparse_(e.make)), '; '.join(probs), node=e.make)
+        else:
+            run.ok(rule, (e.fi.file, e.make.lineno, e.fi.qualname), '%s -> %s' % (tag, want_cls or e.node_type), 'documented node class and data handling')
+    for helper, target, kw, obj in (('add_constructor', 'yaml.add_constructor', 'Loader', 'AwesomeyamlLoader'), ('add_multi_constructor', 'yaml.add_multi_constructor', 'Loader', 'AwesomeyamlLoader'),
+                                    ('add_representer', 'yaml.add_representer', 'Dumper', 'AwesomeyamlDumper'), ('add_multi_representer', 'yaml.add_multi_representer', 'Dumper', 'AwesomeyamlDumper')):
+        q = 'yaml.' + helper
+        if q not in repo.functions:
+            continue
+        fi = repo.func(q)
+        ps = fi.params()
+        ok = False
+        for p in tr.paths_of(repo, fi, follow_exceptions=False):
+            for ev in p.events:
+                if ev.kind == 'call' and ev.callee == target and [a.text for a in ev.args] == ps and ev.kw.get(kw) is not None and ev.kw[kw].text == obj:
+                    ok = True
+        if not ok:
+            run.violation(rule, fi, helper, '%s does not register with PyYAML (%s(%s, %s=%s)): every tag / representer declared through it is silently missing' % (helper, target, ', '.join(ps), kw, obj))
+        else:
+            run.ok(rule, fi, '%s -> %s(..., %s=%s)' % (helper, target, kw, obj))
+
+
+def unparse_(n):
+    from ..srcmodel import unparse
+    return unparse(n)[:80]
+
+
+def make_node_table(repo, run, rule):
+    """yaml._make_node evaluated over node kind (mapping / sequence / scalar) x dict_is_data x data_arg_name x parse_scalars: containers
+    are constructed deep; a scalar is parsed or taken verbatim as asked; a mapping becomes the keyword arguments only when
+    dict_is_data is off; otherwise the value is the first argument or the named one; the current file and (except for the
+    keyword-arguments form) the next stage index are supplied; the caller's kwargs reach the node"""
+    import yaml as _y
+    fi = repo.func('yaml._make_node')
+    bad = []
+    rows = 0
+    for kind in ('mapping', 'sequence', 'scalar'):
+        for dict_is_data in (True, False):
+            for data_arg in (None, 'args'):
+                for parse in (True, False):
+                    calls, made = [], []
+
+                    def stub(name, recv, a, k, calls=calls):
+                        if name in ('construct_mapping', 'construct_sequence', 'construct_scalar'):
+                            calls.append((name, dict(k)))
+                            return {'construct_mapping': {'k': 'v'}, 'construct_sequence': ['e'], 'construct_scalar': 'text'}[name]
+                        if name == 'parse_scalar':
+                            calls.append((name, {}))
+                            return 42
+                        if name == 'get_current_file':
+                            return 'cur.yaml'
+                        if name == 'get_next_stage_idx':
+                            return 9
+                        raise AnalysisError('_make_node: unexpected stub ' + name)
+                    ev = _fde(repo, stubs={'construct_mapping', 'construct_sequence', 'construct_scalar', 'parse_scalar', 'get_current_file', 'get_next_stage_idx'}, stub=stub)
+                    ev.externals.update({'yaml.MappingNode': _y.MappingNode, 'yaml.SequenceNode': _y.SequenceNode, 'yaml.ScalarNode': _y.ScalarNode})
+                    from ..fde import TypedOpaque
+                    ynode = TypedOpaque({'mapping': _y.MappingNode, 'sequence': _y.SequenceNode, 'scalar': _y.ScalarNode}[kind])
+
+                    def node_type(*a, **k):
+                        made.append((a, k))
+                        return 'NODE'
+                    node_type._fde_ok = True
+                    loader = Obj('loader', 'AwesomeyamlLoader', context=Obj('ctx', 'Builder'))
+                    try:
+                        r = ev.call(fi, loader, ynode, node_type=node_type, kwargs={'delete': True}, data_arg_name=data_arg, dict_is_data=dict_is_data, parse_scalars=parse)
+                    except Unsupported as e:
+                        raise AnalysisError('_make_node: finite-domain evaluator refused: %s' % e)
+                    rows += 1
+                    what = '%s node, dict_is_data=%r, data_arg_name=%r, parse_scalars=%r' % (kind, dict_is_data, data_arg, parse)
+                    if r.raised or len(made) != 1 or r.ret != 'NODE':
+                        bad.append('%s: %s' % (what, 'raises %s' % r.raised if r.raised else 'node built %d times / not returned' % len(made)))
+                        continue
+                    a, k = made[0]
+                    data = {'mapping': {'k': 'v'}, 'sequence': ['e'], 'scalar': 42 if parse else 'text'}[kind]
+                    want_call = {'mapping': 'construct_mapping', 'sequence': 'construct_sequence', 'scalar': 'parse_scalar' if parse else 'construct_scalar'}[kind]
+                    if [c[0] for c in calls] != [want_call]:
+                        bad.append('%s: the YAML value is obtained through %s, expected %s' % (what, [c[0] for c in calls], want_call))
+                    elif kind != 'scalar' and calls[0][1].get('deep') is not True:
+                        bad.append('%s: the container is not constructed deep' % what)
+                    if k.get('delete') is not True or k.get('source_file') != 'cur.yaml':
+                        bad.append('%s: the caller\'s arguments / the current file do not reach the node (%s)' % (what, {x: k.get(x) for x in ('delete', 'source_file')}))
+                    if kind == 'mapping' and not dict_is_data:
+                        if a or k.get('k') != 'v':
+                            bad.append('%s: the mapping is not spread into keyword arguments (positional %r, keywords %s)' % (what, a, sorted(k)))
+                    elif data_arg is None:
+                        if list(a) != [data] or k.get('idx') != 9:
+                            bad.append('%s: expected node_type(<value>, idx=<next stage index>, ...), got positional %r, idx=%r' % (what, a, k.get('idx')))
+                    elif a or k.get(data_arg) != data or k.get('idx') != 9:
+                        bad.append('%s: expected node_type(%s=<value>, idx=<next stage index>, ...), got positional %r, %s=%r, idx=%r' % (what, data_arg, a, data_arg, k.get(data_arg), k.get('idx')))
+    if bad:
+        run.violation(rule, fi, 'yaml._make_node', '; '.join(bad[:3]))
+    else:
+        run.ok(rule, fi, '_make_node evaluated on %d rows (node kind x dict_is_data x data_arg_name x parse_scalars)' % rows, 'deep containers; scalar parsed / verbatim; mapping as kwargs only when asked; value positional or named; file and stage index supplied')
